@@ -776,7 +776,7 @@ func init() {
 		"default":   {Nud: nudSelf},
 		"iota":      {Nud: nudSelf},
 
-		";": {Nud: nudNil},
+		";": {},
 
 		"(eof)": {},
 		":":     {},
